@@ -139,6 +139,54 @@ func c01Run(c c01Case, st *vlib.Stats) string {
 	return ""
 }
 
+// c01BigCase is a fixed history that grows one table to three tree levels
+// (the first internal-node split needs 1165 rows) next to a second table.
+func c01BigCase(rows int) c01Case {
+	var c c01Case
+	mk := func(s model.Stmt) {
+		s.SQL = gen.RenderStmt(gen.Plain(), s)
+		c.Stmts = append(c.Stmts, s)
+	}
+	mk(model.Stmt{Kind: "create", Table: "big", Cols: []model.Col{{Name: "a", Type: model.TInt}, {Name: "s", Type: model.TVarchar, Len: 16}}})
+	mk(model.Stmt{Kind: "create", Table: "side", Cols: []model.Col{{Name: "k", Type: model.TInt}}})
+	n := 0
+	for n < rows {
+		ins := model.Stmt{Kind: "insert", Table: "big"}
+		for i := 0; i < 100 && n < rows; i++ {
+			ins.Rows = append(ins.Rows, []model.Val{model.Int(int64(n)), model.Str(fmt.Sprintf("v%d", n%7))})
+			n++
+		}
+		ins.FlushAfter = n%500 == 0
+		mk(ins)
+		if n%300 == 0 {
+			mk(model.Stmt{Kind: "insert", Table: "side", Rows: [][]model.Val{{model.Int(int64(n))}}})
+			lo, hi := model.Int(int64(n-40)), model.Int(int64(n-30))
+			mk(model.Stmt{Kind: "delete", Table: "big", Where: &model.Cond{Or: [][]model.Cmp{{
+				{L: model.Operand{Col: "a"}, Op: ">=", R: model.Operand{Lit: &lo}}, {L: model.Operand{Col: "a"}, Op: "<", R: model.Operand{Lit: &hi}}}}}})
+		}
+	}
+	five := model.Str("v5")
+	mk(model.Stmt{Kind: "update", Table: "big", Set: []model.Assign{{Col: "s", Val: model.Str("upd")}},
+		Where: &model.Cond{Or: [][]model.Cmp{{{L: model.Operand{Col: "s"}, Op: "=", R: model.Operand{Lit: &five}}}}}})
+	c.CheckEvery = 4
+	return c
+}
+
 func TestC01(t *testing.T) {
-	vlib.Drive(t, vlib.Prop[c01Case]{ID: "C01", Gen: c01Gen, Run: c01Run})
+	st := vlib.NewStats("C01")
+	defer st.Write(Cfg, "C01")
+	if Cfg.Replay == "" && Cfg.Shard == 0 {
+		rows := 1300
+		if Cfg.Tier == "thorough" {
+			rows = 3600
+		}
+		bc := c01BigCase(rows)
+		if msg := c01Run(bc, st); msg != "" {
+			b, _ := json.Marshal(bc)
+			st.Fail("fixed large-table history: "+msg, b)
+			vlib.Logf("FAIL C01 (large table): %s", msg)
+			return
+		}
+	}
+	vlib.DriveWith(t, vlib.Prop[c01Case]{ID: "C01", Gen: c01Gen, Run: c01Run}, Cfg, st)
 }
